@@ -9,6 +9,7 @@ THEOREM_FILE = "Props/C04.v"
 EXTRA_THEOREM_FILES = ["Props/Coherence.v", "Props/Coherence_Order.v", "Props/Coherence_Cidrs.v", "Props/Coherence_Text.v",
                        "Props/Coherence_Words.v", "Props/C04_src.v"]
 EXTRA_THEOREM_FILES.append("Props/C04_src_match.v")     # (SRCE) source tie of the three matching functions and IPListMixin.__contains__
+EXTRA_THEOREM_FILES.append("Props/C04_code.v")     # (CODA) code-level theorems: the property about the regenerated definitions
 RULE = ("contains: containers (IPNetwork with/without host bits, IPRange, IPGlob, IPListMixin subclasses) drawn from the "
         "arenas, from every prefix 0..width at the bottom/top/middle of both address spaces and from random blocks; for "
         "each container, operands (IPAddress, IPNetwork with/without host bits, IPRange, IPGlob where glob-shaped, address "
